@@ -20,7 +20,9 @@ RULE = ('operation histories over {append, append_multiple(1..k), delete(first/m
         'non-trivial = the history crosses a bucket boundary or contains a deletion.')
 ASSUMPTIONS = ['rows are float vectors of width 2 or 6; only operations that are valid on the list model are generated, '
                'except out-of-range single-index reads, where an IndexError is required',
-               'with drop_at the model is: contents are a suffix of the full list and include the newest row']
+               'with drop_at the model is: contents are a suffix of the full list and include the newest row; an append (single '
+               'or bulk) that brings the length to a multiple of drop_at discards the oldest drop_at // 2 rows and nothing else '
+               'ever discards (the policy the ticker / trade / orderbook stores are sized for)']
 MIN_OBS = {'ops': 5000, 'slice_reads': 100000, 'index_reads': 20000, 'bucket_crossings': 500, 'deletes': 500,
            'append_after_delete': 300, 'negative_slice_start_reads': 5000, 'setitem_ops': 200}
 EXHAUSTIVE_NOTE = 'DFS jobs enumerate every sequence over their alphabet up to their depth (see samples of kind dfs)'
@@ -73,7 +75,7 @@ class Harness:
         except Exception as e:
             raise Viol('append_raises_after_delete' if self.deleted_before else 'append_raises',
                        f'append raised {e!r} at len {len(self.m)}')
-        self._model_append([r])
+        self._model_append([r], single=True)
         if self.deleted_before:
             self.c('append_after_delete')
 
@@ -89,7 +91,7 @@ class Harness:
         if self.deleted_before:
             self.c('append_after_delete')
 
-    def _model_append(self, rs):
+    def _model_append(self, rs, single=False):
         before = len(self.m)
         self.full.extend(rs)
         if self.drop_at:
@@ -101,6 +103,15 @@ class Harness:
                 raise Viol('len_mismatch', f'len {n} > rows ever appended {len(self.full)}')
             if len(self.full) < self.drop_at and n != len(self.full):
                 raise Viol('drop_at_dropped_too_early', f'len {n} but only {len(self.full)} rows < drop_at {self.drop_at}')
+            # drop-oldest policy of the structure: an append (single or bulk) that brings the length to a multiple of drop_at
+            # discards the oldest drop_at // 2 rows; no other operation discards
+            new_len = before + len(rs)
+            exp_drop = self.drop_at // 2 if (new_len != 1 and new_len % self.drop_at == 0) else 0
+            self.c('drop_policy_checks')
+            if n != before + len(rs) - exp_drop:
+                raise Viol('drop_at_discards_wrong_number_of_rows',
+                           f'length {before} + {len(rs)} appended ({"single" if single else "bulk"}) with drop_at {self.drop_at}: '
+                           f'{before + len(rs) - n} rows discarded, the drop-oldest policy discards {exp_drop}')
             self.m = self.full[len(self.full) - n:] if n else []
             if n < before + len(rs):
                 self.c('drops')
